@@ -6,9 +6,10 @@
    slice index, poisoned mutex) or the generator coroutine: those are decided by the overflow-checked differential
    run with a per-case watchdog (see DESIGN.md), whose agreement with this model on every step is what transfers the
    invariant below to the implementation's states. *)
-From Coq Require Import NArith List Bool.
+From Coq Require Import NArith List Bool Lia.
 From MT Require Import Lib Types Tables Screen Parser Utf8 World Spec Stmt.
-From MT.Proofs Require Import WF Aeq P05 CongrMore SpecAll RefineModes RefineAll RunAll Stream Recog P01.
+From MT.Gen Require GenTables.
+From MT.Proofs Require Import WF Aeq P05 CongrMore SpecAll RefineModes RefineAll RunAll Stream Recog P01 P01Tables.
 Import ListNotations.
 Open Scope N_scope.
 
@@ -38,9 +39,26 @@ Proof. exact feed_bytes_chunks. Qed.
 (* display() is a total function of the state whose only effect on it is invisible (C10_display_is_pure), so it can be
    interleaved at arbitrary points without affecting any of the above. *)
 
+(* facts that the Rust text's unchecked operations rely on, as theorems: (1) `self.columns - 1`, `self.lines - 1` (ensure_hbounds,
+   ensure_vbounds, index, reverse_index, IL/DL, tab, draw, set_margins) need columns, lines >= 1 — a clause of WF, proved above for
+   every reachable state; (2) `g0_charset[c as usize]` / `g1_charset[..]` for c <= 255 need 256-entry tables, `FG_BG_256[m]` is
+   guarded by its length, `attr_str[1..]` needs non-empty strings in TEXT — kernel-checked on the tables of the current source;
+   (3) sums such as cursor.x + count, y + count, x + 1 fit in u32 when columns, lines <= 2^32 - 10^4 and arguments <= 9999.
+   The remaining subtractions are saturating or sit under their own `if a >= b` / `if x > 0` guard. (The list of sites is by
+   inspection of src/screen.rs — DESIGN.md section 7, C01 — and is cross-checked only dynamically.) *)
+Theorem C01_geometry_at_least_one : forall s, WF s -> 1 <= columns s /\ 1 <= lines s.
+Proof. intros s W. split; [exact (wf_cols s W)|exact (wf_lines s W)]. Qed.
+Theorem C01_index_tables_of_the_source : length GenTables.g_lat1 = 256%nat /\ length GenTables.g_vt100 = 256%nat /\ length GenTables.g_ibmpc = 256%nat /\ length GenTables.g_vax42 = 256%nat /\ length GenTables.g_palette = 256%nat /\ forallb (fun e : N * list N => match snd e with [] => false | _ => true end) GenTables.g_text = true.
+Proof. destruct charset_tables_have_256_entries as [a [b [c d]]]. pose proof palette_has_256_entries. pose proof text_table_strings_nonempty. repeat split; assumption. Qed.
+Theorem C01_sums_fit_in_u32 : forall s n, WF s -> columns s + 10000 <= 4294967296 -> lines s + 10000 <= 4294967296 -> n <= 9999 ->
+  cx s + n < 4294967296 /\ cy s + n < 4294967296 /\ cx s + 1 < 4294967296 /\ cy s + 1 < 4294967296.
+Proof. intros s n W Hc Hl Hn. pose proof (wf_x s W). pose proof (wf_y s W). repeat split; Lia.lia. Qed.
+
 Print Assumptions C01_pipeline_invariant.
 Print Assumptions C01_api_invariant.
 Print Assumptions C01_recogniser_delivers_legal_operations.
 Print Assumptions C01_parameters_capped.
 Print Assumptions C01_no_sink_state.
 Print Assumptions C01_chunking_irrelevant.
+Print Assumptions C01_index_tables_of_the_source.
+Print Assumptions C01_sums_fit_in_u32.
